@@ -249,3 +249,27 @@ def route_table_loading(tree, ob, attr, item_cls, fieldmap):
                         else:
                             ob.violate(rel, qual, src(node)[:80], why + ': the table consulted by first-match routing is not the configured one', node)
     ob.require(n >= 1, 'writers of {} found: {}'.format(attr, n))
+
+
+
+def entry_fidelity(tree, ob, rel, qual):
+    ''' the D-Bus entry that takes a bundle as a byte array: what is queued is a file over exactly those octets.  The byte
+    array may be converted to bytes (the repository's idiom joins one-octet strings); anything else between the parameter
+    and the BytesIO -- a slice, a strip, a decode/encode -- changes the bundle before the transfer even starts. '''
+    import re
+    fv = FuncView(tree, rel, qual)
+    params = [a.arg for a in fv.func.args.args]
+    ob.require(len(params) >= 2, qual + '(self, data, ...)')
+    dp = params[1]
+    files = [c for c in calls_in(fv.func) if (call_name(c) or '').split('.')[-1] == 'BytesIO']
+    c = one(files, 'BytesIO over the data in ' + qual, ob)
+    val = fv.value_at(c.args[0], c, depth=4, keep=()) if c.args else None
+    text = src(val) if val is not None else ''
+    # value_at resolves the parameter rebinding `data = convert(data)`: the innermost name must be the parameter
+    ok = text in (dp, 'bytes({})'.format(dp), 'bytearray({})'.format(dp)) or re.fullmatch(r"b''\.join\(\[bytes\(\[(\w+)\]\) for \1 in {}\]\)".format(re.escape(dp)), text) is not None
+    stores = [n for n in walk_local(fv.func) if isinstance(n, ast.Name) and n.id == dp and isinstance(n.ctx, ast.Store)]
+    if ok and len(stores) <= 1:
+        ob.site(rel, c, qual + ': queued file holds exactly the octets passed in')
+    else:
+        ob.violate(rel, qual, 'BytesIO({})'.format(text[:60]), 'the bundle queued for sending is not the byte array that was passed in (sliced, stripped or re-coded on entry): '
+                   'every segment and the final length are then those of another bundle', c)
